@@ -508,7 +508,7 @@ pub const NAME_INITIALS: &[&str] =
       "\u{aa}", "\u{7fa}", "\u{800}", "\u{d7fb}", "\u{ffdc}", "\u{10000}", "\u{30000}"];
 pub const NAME_SUBSEQ_EXTRA: &[&str] = &["0", "9", "+", "-", ".", "i", "l"];
 pub const NAME_PECULIAR: &[&str] =
-    &["+", "-", "...", "+a", "-a", "+.a", "-.a", "+..", "-..", ".a", "..", "->", "+-", "-+", "--", ".+", "+@", "nil", "t", "nil:", ":nil", "nilx", "tt", "λ-1", "a.b", "a:b"];
+    &["+λ", "-λ", "+\u{7fa}", "-\u{800}x", "+λ-1", "+", "-", "...", "+a", "-a", "+.a", "-.a", "+..", "-..", ".a", "..", "->", "+-", "-+", "--", ".+", "+@", "nil", "t", "nil:", ":nil", "nilx", "tt", "λ-1", "a.b", "a:b"];
 
 /// All candidate names: identifiers of length <= maxlen over the name alphabet, plus peculiar ones.
 /// Filtering by "plain in dialect" is done by `model::reader::plain_name`.
@@ -557,7 +557,7 @@ pub fn actx() -> Vec<RV> {
     ];
     // one representative per scanner path of the symbol lexer: plain, sign alone, sign + letter,
     // sign + dot (peculiar), sign + non-ASCII, dot-initial, non-ASCII-initial
-    for s in ["a", "+", "-", "...", "a.b", "λ-1", "x1", "<=?", "e5", "->", "f", "nil", "t", "+.a", "-..", "-λ", "+a", ".a", "..", "λ"] {
+    for s in ["a", "+", "-", "...", "a.b", "λ-1", "x1", "<=?", "e5", "->", "f", "nil", "t", "+.a", "-..", "-λ", "+λ", "+a", ".a", "..", "λ"] {
         v.push(RV::sym(s));
     }
     for s in ["a", "k-w", "λ", "x1", "+", "e", "-.λ"] {
